@@ -17,7 +17,8 @@ EXPLANATION = (
     "state on every path (the daemon can start again); with no thread it returns Ok; (H4) serve raises every worker's exit "
     "event on every path after wait and maps Disconnected / PartialMessage to Ok; (H5) dropping the handler signals every "
     "worker's exit event and then joins every worker; dropping the daemon shuts the connection down."
-    ' Also: (H3) every request error is returned only after the shutdown flag was seen false, Error::SocketBroken is constructed only in the errno conversion and the sticky-error accessors, the state reset is recognised as the store of None (helper or inline); (H5) no iteration of the join loop can skip the join; (H6) C08/S8.')
+    ' Also: (H3) every request error is returned only after the shutdown flag was seen false, Error::SocketBroken is constructed only in the errno conversion and the sticky-error accessors, the state reset is recognised as the store of None (helper or inline); (H5) no iteration of the join loop can skip the join; (H6) C08/S8.'
+    " Round 4/5: (H3) the shutdown flag is read after join() returned (closure or expanded form); (H4) serve creates its listener with unlink = true; (H5) the drained range is the full range; (H9) the workers' exit events are raised only by serve and Drop; (H8, H10, H11) C05/V2, C08/S1, C17/E2.")
 NOT_DECIDED = "Bounded time, the races themselves, what the peer observes on the wire."
 
 ORDER = {"Relaxed": 0, "Release": 1, "Acquire": 1, "AcqRel": 2, "SeqCst": 3}
@@ -312,6 +313,16 @@ def run_on(fb, chk, tag=""):
                         mapped[nm] = ret_okness(o.ret) if mapped.get(nm, True) is True else mapped[nm]
     chk.check(mapped.get("Disconnected") is True and mapped.get("PartialMessage") is True, "H4", tag + "disconnect-mapping",
               "Disconnected / PartialMessage -> Ok", "serve maps clean disconnects to %s" % mapped, sv.loc())
+    # serve() binds its own listener and owns the socket path: a stale path left by an earlier connection is unlinked first
+    # (unlink = true), otherwise the daemon cannot accept the next connection on the same path
+    for lb, lt, lc in sites(sv, name="new"):
+        if "Listener" not in (lc.get("self_ty") or lc.get("path") or ""):
+            continue
+        la = sm.sym.arg_terms(lb)
+        flag = const_eval(fb, sm.sym, la[1]) if len(la) > 1 else None
+        chk.check(flag == 1, "H4", tag + "serve:listener-unlinks", "Listener::new(path, unlink = true)",
+                  "serve() creates its listener without unlinking a stale socket path (unlink = %s): after an earlier connection the "
+                  "daemon cannot be served again on that path" % flag, sv.loc(lt["line"]))
     # ------------------------------------------------------------------ H5
     drops = [g for g in fb.find(name="drop") if (g.trait or "").endswith("::Drop")]
     hd = [g for g in drops if (g.self_adt or "").endswith("::VhostUserHandler")]
@@ -328,6 +339,13 @@ def run_on(fb, chk, tag=""):
         # every drained worker is joined: no iteration of the loop can go round without the join (no timeout / skip)
         from .c11 import _skippable_in_loop
         skip = bool(jn) and _skippable_in_loop(gm.cfg, jn[0])
+        # ... and the traversal covers the whole list: a `drain` takes the full range, an iterator is not shortened
+        for db_, dt_, dc_ in sites(g, name="drain"):
+            ra = gm.sym.arg_terms(db_)[1] if len(gm.sym.arg_terms(db_)) > 1 else None
+            if ra is not None and not (ra[0] == "agg" and ra[1].endswith("RangeFull")) and not (ra[0] == "const" and "RangeFull" in str(ra)):
+                skip = True
+        if jn and any(nm_ in show(gm.sym.arg_terms(jn[0])[0]) for nm_ in ("skip(", "take(", "step_by(", "skip_while(", "rev(")):
+            skip = True
         chk.check(ok and src and not skip, "H5", tag + "handler-drop", "signal every worker's exit event, then join every worker",
                   "Drop for VhostUserHandler: exit events before joins=%s, joins all workers=%s, a worker can be left un-joined=%s "
                   "(a detached worker keeps its clones of the rings, the backend and the received descriptors alive)" % (ok, src, skip), g.loc())
